@@ -51,6 +51,8 @@ class _ArrAttr(Opaque):
 class NumpyShim:
     """np.<f> for every f the harness does not define: logged, result unrelated to its arguments"""
 
+    ndarray = TypeToken("ndarray", lambda interp, v: isinstance(v, ArrV) or (isinstance(v, Opaque) and getattr(v, "what", "") == "ndarray"))
+
     def __init__(self, log):
         self._log = log
 
@@ -140,7 +142,14 @@ def save_harness(kind, file_kind="opaque"):
         meta = dict(function=f"{IO}:save", case=kind, file=file_kind)
         tag = f"C18.save[{kind}]" if file_kind == "opaque" else f"C18.save[{kind},file=pathlib.Path]"
         if kind == "non-tensor":
-            for bad in (Opaque("ndarray"), [1.0], 2.0, None):
+            class NotATensor(Opaque):
+                """an ndarray handed to save() by mistake: every attribute reads as something opaque, so that an implementation that lets it through
+                reaches np.savez (clause `savez_not_called`) instead of leaving the model"""
+
+                def __sym_getattr__(self_, interp_, name):
+                    return Opaque(f"ndarray.{name}")
+
+            for bad in (NotATensor("ndarray"), [1.0], 2.0, None):
                 try:
                     interp.call(f, [file, bad], {})
                     ctx.oblige(f"{tag}.raises_TypeError", False, **meta)
